@@ -365,6 +365,15 @@ func TestBoundarySweepLarge(t *testing.T) {
 			}
 			if off < len(d.all) {
 				sweepOne(t, sec, spec, d, d.all[:off], runSpec{FailAt: -1, EOFWith: off%2 == 0}, "trunc."+pos, fmt.Sprintf("truncate to %d bytes", off))
+				if near(off) {
+					// around the marks: both ways of reporting the end (EOF with the last bytes / alone) under source
+					// read sizes that put the last read at, before and behind the segment boundary
+					for _, eofWith := range []bool{false, true} {
+						for _, src := range [][]int{{refenc.SealedSize}, {refenc.SealedSize + 1}, {4096}, {len(d.all)}} {
+							sweepOne(t, sec, spec, d, d.all[:off], runSpec{FailAt: -1, EOFWith: eofWith, Src: src}, "trunc."+pos, fmt.Sprintf("truncate to %d bytes", off))
+						}
+					}
+				}
 				m := bytes.Clone(d.all)
 				m[off] ^= 1 << (off % 8)
 				sweepOne(t, sec, spec, d, m, runSpec{FailAt: -1, Src: [][]int{nil, {refenc.SealedSize}, {4096}}[off%3]}, "flip."+pos, fmt.Sprintf("flip bit %d of byte %d", off%8, off))
